@@ -81,7 +81,7 @@ mod verif_expand {
     return EXPAND_RE.sub(lambda m: next(it), body)
 
 
-def inject(scratch_repo, modules, known_ids, intree_macros=False):
+def inject(scratch_repo, modules, known_ids, intree_macros=False, grammar_deviations=False):
     src = os.path.join(scratch_repo, "a2lfile", "src")
     table = []
     pre = link_intree_macros(scratch_repo) if intree_macros else []
@@ -112,6 +112,17 @@ def inject(scratch_repo, modules, known_ids, intree_macros=False):
         doc = "ASAP2_VERSION 1 71\n/begin PROJECT p \"\"\n/end PROJECT\n"
         fpmod = "use crate::specification::*;\npub(crate) fn fingerprint(_file: &A2lFile) -> Vec<u8> { Vec::new() }\npub(crate) const VERIF_FP_STUB: bool = true;\n"
         pre.append("dslgen failed (%s): stub every-element document and fingerprint module" % str(e)[:200])
+    # C04: single deviations from the frozen reference grammar (only built when a property asks for them: large)
+    devmod = ("pub(crate) const N_DEV: u32 = 0;\npub(crate) fn dev_doc(_k: u32) -> (&'static str, &'static str, &'static str, bool) { (\"\", \"\", \"\", false) }\n"
+              "pub(crate) const N_GATED: u32 = 0;\npub(crate) fn gated_doc(_k: u32) -> (&'static str, u32, u32, &'static str) { (\"\", 0, 0, \"\") }\n")
+    if grammar_deviations:
+        ref = open(os.path.join(C.VERIF, "reference", "a2l_grammar_dsl.txt")).read()
+        devs = dslgen.deviation_documents(ref)
+        gated = dslgen.gated_documents(ref)
+        devmod = dslgen.deviation_module(devs) + dslgen.gated_module(gated)
+        import collections
+        pre.append("a2lfile/src/verif_dev.rs (generated from /verif/reference/a2l_grammar_dsl.txt: %d documents %s, %d version-open documents)" % (len(devs), dict(collections.Counter(d["kind"] for d in devs)), len(gated)))
+    open(os.path.join(src, "verif_dev.rs"), "w").write(devmod)
     if "VERIF_FP_STUB" not in fpmod:
         fpmod += "pub(crate) const VERIF_FP_STUB: bool = false;\n"
     open(os.path.join(src, "verif_every_element.txt"), "w").write(doc)
@@ -125,7 +136,7 @@ def inject(scratch_repo, modules, known_ids, intree_macros=False):
     with open(os.path.join(src, "verif_rt.rs"), "w") as f:
         f.write(rt)
     with open(os.path.join(src, "lib.rs"), "a") as f:
-        f.write("\n#[cfg(verif)]\n#[allow(unused, clippy::all)]\npub(crate) mod verif_rt;\n#[cfg(verif)]\n#[allow(unused, clippy::all)]\npub(crate) mod verif_fp;\n")
+        f.write("\n#[cfg(verif)]\n#[allow(unused, clippy::all)]\npub(crate) mod verif_rt;\n#[cfg(verif)]\n#[allow(unused, clippy::all)]\npub(crate) mod verif_fp;\n#[cfg(verif)]\n#[allow(unused, clippy::all)]\npub(crate) mod verif_dev;\n")
     return pre + ["a2lfile/src/%s.rs += /verif/harness/%s.rs (cfg(verif))" % (m.replace("__", "/"), m) for m in modules] + [
         "a2lfile/src/verif_rt.rs (new, cfg(verif))"]
 
